@@ -1,5 +1,5 @@
 """C08 - each Gibbs block draws from the exact full conditional of the documented model (Gibbs.tla)."""
-import copy, json, math, random
+import copy, math, json, math, random
 import numpy as np
 
 from batchie.data import Screen, ExperimentSpace
@@ -40,8 +40,13 @@ class Recorder:
         self.wm, self.log, self.rs = wm, [], np.random.RandomState(seed)
         self.gen = np.random.default_rng(seed + 1)
 
+    perm = None          # position of the n-th experiment of the dataset (as the script numbers them) in the sampler's own arrays
+
     def snap(self):
-        return {k: copy.deepcopy(np.asarray(getattr(self.wm, k), dtype=float)) for k in PARAMS if hasattr(self.wm, k)}
+        d = {k: copy.deepcopy(np.asarray(getattr(self.wm, k), dtype=float)) for k in PARAMS if hasattr(self.wm, k)}
+        if self.perm is not None and "Mu" in d and d["Mu"].shape == (len(self.perm),):
+            d["Mu"] = d["Mu"][self.perm]
+        return d
 
     def normal(self, loc=0.0, scale=1.0, size=None):
         s = self.snap()
@@ -296,7 +301,26 @@ def run_case(case, seed, steps, rng, inject=False, two_phase=False):
         model.add_observations(scr)
     wm = model.wrapped_model
     y = np.asarray(wm.y, dtype=float)
+    # the sampler may keep its training data in any order (C08 is about the dataset, not about its storage order): find where the
+    # n-th experiment of the dataset sits, by its ids and transformed value
+    perm = None
+    if rows and len(y) == len(rows):
+        yexp = [math.log(min(max(float(np.float32(v)), 0.01), 0.99) / (1 - min(max(float(np.float32(v)), 0.01), 0.99))) for v in scr.observations]
+        free, perm = list(range(len(y))), []
+        for n_, r_ in enumerate(rows):
+            cand = [j for j in free if (int(wm.cline[j]), int(wm.dd1[j]), int(wm.dd2[j])) == (r_["c"], r_["d1"], r_["d2"])]
+            if not cand:
+                perm = None
+                break
+            j = min(cand, key=lambda j_: abs(float(wm.y[j_]) - yexp[n_]))
+            perm.append(j)
+            free.remove(j)
+        if perm is not None and perm != list(range(len(y))):
+            y = y[perm]
+        else:
+            perm = None
     rec = Recorder(wm, seed)
+    rec.perm = perm
     for b in BLOCKS:
         rec.wrap_block(b)
     saved = (np.random.normal, np.random.gamma, SC.sample_mvn_from_precision)
@@ -324,6 +348,8 @@ def run_case(case, seed, steps, rng, inject=False, two_phase=False):
             if rows:
                 pm = th.predict_conditional_mean(scr)
                 mu = np.asarray(wm.Mu, dtype=float)
+                if perm is not None:
+                    mu = mu[perm]          # (fitted values in the order of the dataset, as the prediction on the screen is)
                 if not np.allclose(pm, mu, rtol=0, atol=EPS * (1 + np.abs(mu).max() + sum(np.abs(np.asarray(getattr(wm, k), dtype=float)).max() ** 2 for k in ("W", "V1", "V2")) * D)):
                     return "exported sample predicts %s on the training data, the sampler's fitted values are %s" % (pm, mu)
     finally:
